@@ -19,7 +19,8 @@ from sim import kernel, faults, aloop
 from sim.runner import RunResult
 
 ID = "C08"
-RULE = ("plan = (wrapper kind sync generator | async generator | coroutine, eager or lazy, declared types none | "
+RULE = ("plan = (wrapper kind sync generator | async generator | coroutine, eager or lazy, plain function | static method "
+        "(parse above staticmethod, or the class decorated), collect_errors on/off, declared types none | "
         "Generator[Leaf,Leaf2,KeyLeaf] | Generator[int,float,str] | Iterator[int] (async: AsyncGenerator/AsyncIterator), 1-3 "
         "consumers each with its own instance, body script (yield/sleep/return/raise) and consumer script (call, next/send, "
         "anext/asend, throw/close/drop, pauses, per-op timeouts), interleaving (sync: seeded step order; async: SimLoop "
@@ -58,6 +59,10 @@ def val(v):
 
 
 def cn(v):
+    import inspect
+    if inspect.iscoroutine(v):
+        v.close()
+        return ["coroutine-object"]
     return kernel.canon(v)
 
 
@@ -75,6 +80,33 @@ PYTYPES = {"Leaf": faults.Leaf, "Leaf2": faults.Leaf2, "KeyLeaf": faults.KeyLeaf
 def source(plan):
     ts = TYPESETS[plan["types"]]
     eager = "True" if plan["eager"] else "False"
+    opt = ", options=utype.Options(collect_errors=True)" if plan.get("collect") else ""
+    ctx = plan.get("ctx", "func")
+    if ctx == "static":
+        tail = f"""
+class K:
+    dec_sync = utype.parse(staticmethod(raw_sync), eager={eager}{opt})
+    dec_async = utype.parse(staticmethod(raw_async), eager={eager}{opt})
+    dec_co = utype.parse(staticmethod(raw_co), eager={eager}{opt})
+
+dec_sync, dec_async, dec_co = K.dec_sync, K.dec_async, K.dec_co
+"""
+    elif ctx == "class_deco":
+        tail = f"""
+@utype.parse(eager={eager}{opt})
+class K:
+    dec_sync = staticmethod(raw_sync)
+    dec_async = staticmethod(raw_async)
+    dec_co = staticmethod(raw_co)
+
+dec_sync, dec_async, dec_co = K.dec_sync, K.dec_async, K.dec_co
+"""
+    else:
+        tail = f"""
+dec_sync = utype.parse(raw_sync, eager={eager}{opt})
+dec_async = utype.parse(raw_async, eager={eager}{opt})
+dec_co = utype.parse(raw_co, eager={eager}{opt})
+"""
     return f'''
 import utype, asyncio
 from typing import Generator, Iterator, AsyncGenerator, AsyncIterator
@@ -129,16 +161,16 @@ async def raw_co(a: Leaf, key: int = 0){ts["co"]}:
                 await asyncio.sleep(act[1])
             elif k == "return":
                 return val(act[1])
+            elif k == "return_co":
+                async def later():
+                    return val(act[1])
+                return later()
             elif k == "raise":
                 raise EXC[act[1]]("body")
     finally:
         log.append(["finally"])
 
-
-dec_sync = utype.parse(raw_sync, eager={eager})
-dec_async = utype.parse(raw_async, eager={eager})
-dec_co = utype.parse(raw_co, eager={eager})
-'''
+''' + tail
 
 
 # ----------------------------------------------------------------------------- generation
@@ -162,7 +194,8 @@ def generate(rng, tier):
     kind = rng.choice(["sync", "sync", "async", "async", "co"])
     types = rng.choice(["leaf", "leaf", "int", "iter", "none"])
     ts = TYPESETS[types]
-    plan = {"prop": ID, "kind": kind, "types": types, "eager": rng.random() < 0.5}
+    plan = {"prop": ID, "kind": kind, "types": types, "eager": rng.random() < 0.5,
+            "collect": rng.random() < 0.2, "ctx": rng.choice(["func", "func", "func", "static", "class_deco"])}
     ncons = rng.choice([1, 1, 2, 3])
     pool = [1, []]
     consumers = []
@@ -184,7 +217,10 @@ def generate(rng, tier):
         elif kind == "sync" and r < 0.6:
             body.append(["return", _gen_value(rng, ts["R"], pool) if rng.random() < 0.8 else None])
         elif kind == "co":
-            body.append(["return", _gen_value(rng, ts.get("CR"), pool)])
+            if types == "none" and rng.random() < 0.3:
+                body.append(["return_co", rng.choice([1, "u"])])    # a second phase handed to the caller un-awaited
+            else:
+                body.append(["return", _gen_value(rng, ts.get("CR"), pool)])
         c["body"] = body
         script = [["call"]]
         if kind == "co":
@@ -684,7 +720,7 @@ def execute(plan):
             res.violate(f"C08|{tag}|body|resumed_after_parse_failure",
                         f"consumer {ci}: the body ran on after a conversion failure: {glog[failure_at:]}")
     if nontriv:
-        res.nontrivial = kernel.digest_of([plan["kind"], plan["eager"], plan["types"], [[c["body"], c["script"]] for c in cons],
+        res.nontrivial = kernel.digest_of([plan["kind"], plan["eager"], plan["types"], plan.get("collect"), plan.get("ctx"), [[c["body"], c["script"]] for c in cons],
                                            plan.get("interleave"), plan.get("loop", {}).get("mode"), plan.get("cancel")])
     CTX.clear()
     return res
@@ -709,6 +745,14 @@ def shrink(plan):
     if plan.get("cancel"):
         p = copy.deepcopy(plan)
         p.pop("cancel")
+        yield p
+    if plan.get("collect"):
+        p = copy.deepcopy(plan)
+        p["collect"] = False
+        yield p
+    if plan.get("ctx", "func") != "func":
+        p = copy.deepcopy(plan)
+        p["ctx"] = "func"
         yield p
     for k in list(plan["faults"]["leaf"]):
         p = copy.deepcopy(plan)
